@@ -616,6 +616,17 @@ func (k *simKDC) handleTGS(tgs messages.TGSReq, transport string) []byte {
 	}
 	tk := ap.Ticket.DecryptedEncPart
 	rec.CName = tk.CName.PrincipalNameString()
+	// this process holds the keys of every simulated realm; the TGS of realm b.Realm holds only its own: the ticket must be a TGT
+	// for this TGS (krbtgt/<b.Realm>, Kerberos5TGS!TGSValid), or - for a renewal - a ticket this realm issued
+	if types.IsFlagSet(&b.KDCOptions, flags.Renew) {
+		if ap.Ticket.Realm != b.Realm {
+			rec.Answer = "krberror-35"
+			return k.krbErr(errorcode.KRB_AP_ERR_NOT_US, b.Realm, tk.CName, b.SName, nil)
+		}
+	} else if sn := ap.Ticket.SName.NameString; len(sn) != 2 || sn[0] != "krbtgt" || sn[1] != b.Realm {
+		rec.Answer = "krberror-35"
+		return k.krbErr(errorcode.KRB_AP_ERR_NOT_US, b.Realm, tk.CName, b.SName, nil)
+	}
 	if k.now().UTC().After(tk.EndTime) {
 		rec.Answer = "krberror-32"
 		return k.krbErr(errorcode.KRB_AP_ERR_TKT_EXPIRED, b.Realm, tk.CName, b.SName, nil)
